@@ -38,3 +38,6 @@ pub assume_specification<P: std::str::pattern::Pattern> [str::ends_with] (_0: &s
     where for<'a> <P as std::str::pattern::Pattern>::Searcher<'a>: std::str::pattern::ReverseSearcher<'a>;
 #[verifier::allow(undeclared_external_trait)]
 pub assume_specification<P: std::str::pattern::Pattern> [str::starts_with] (_0: &str, _1: P) -> bool;
+// bool::then_some
+pub assume_specification<T> [bool::then_some] (b: bool, t: T) -> (r: Option<T>)
+    ensures r == (if b { Some(t) } else { None::<T> });
